@@ -515,7 +515,12 @@ class FuncAcos(ValueFunc):
     def execute(self, args, environment, pos):
         if args.isNull("x"):
             return NULL
-        return ValueDecimal(math.acos(args.getNumerical("x").value))
+        try:
+            return ValueDecimal(math.acos(args.getNumerical("x").value))
+        except (ValueError, OverflowError):
+            raise CklRuntimeError(
+                ValueString("ERROR"), "acos is not defined for this argument", pos
+            )
 
 
 class FuncAdd(ValueFunc):
@@ -652,7 +657,12 @@ class FuncAsin(ValueFunc):
     def execute(self, args, environment, pos):
         if args.isNull("x"):
             return NULL
-        return ValueDecimal(math.asin(args.getNumerical("x").value))
+        try:
+            return ValueDecimal(math.asin(args.getNumerical("x").value))
+        except (ValueError, OverflowError):
+            raise CklRuntimeError(
+                ValueString("ERROR"), "asin is not defined for this argument", pos
+            )
 
 
 class FuncAtan(ValueFunc):
@@ -1473,7 +1483,12 @@ class FuncExp(ValueFunc):
     def execute(self, args, environment, pos):
         if args.isNull("x"):
             return NULL
-        return ValueDecimal(math.exp(args.getNumerical("x").value))
+        try:
+            return ValueDecimal(math.exp(args.getNumerical("x").value))
+        except (ValueError, OverflowError):
+            raise CklRuntimeError(
+                ValueString("ERROR"), "exp is not defined for this argument", pos
+            )
 
 
 class FuncFileInput(ValueFunc):
@@ -2466,7 +2481,12 @@ class FuncLog(ValueFunc):
     def execute(self, args, environment, pos):
         if args.isNull("x"):
             return NULL
-        return ValueDecimal(math.log(args.getNumerical("x").value))
+        try:
+            return ValueDecimal(math.log(args.getNumerical("x").value))
+        except (ValueError, OverflowError):
+            raise CklRuntimeError(
+                ValueString("ERROR"), "log is not defined for this argument", pos
+            )
 
 
 class FuncLower(ValueFunc):
@@ -3011,11 +3031,25 @@ class FuncPow(ValueFunc):
             y = args.getInt("y").value
             if y >= 0:
                 return ValueInt(x ** y)
-            return ValueInt(int(math.pow(x, y)))
+            try:
+                return ValueInt(int(math.pow(x, y)))
+            except (ValueError, OverflowError, ZeroDivisionError):
+                raise CklRuntimeError(
+                    ValueString("ERROR"),
+                    "pow is not defined for these arguments",
+                    pos,
+                )
         else:
             x = args.get("x").asDecimal().value
             y = args.get("y").asDecimal().value
-            return ValueDecimal(math.pow(x, y))
+            try:
+                return ValueDecimal(math.pow(x, y))
+            except (ValueError, OverflowError, ZeroDivisionError):
+                raise CklRuntimeError(
+                    ValueString("ERROR"),
+                    "pow is not defined for these arguments",
+                    pos,
+                )
 
 
 class FuncPrint(ValueFunc):
@@ -3764,7 +3798,12 @@ class FuncSqrt(ValueFunc):
     def execute(self, args, environment, pos):
         if args.isNull("x"):
             return NULL
-        return ValueDecimal(math.sqrt(args.getNumerical("x").value))
+        try:
+            return ValueDecimal(math.sqrt(args.getNumerical("x").value))
+        except (ValueError, OverflowError):
+            raise CklRuntimeError(
+                ValueString("ERROR"), "sqrt is not defined for this argument", pos
+            )
 
 
 class FuncStartsWith(ValueFunc):
